@@ -187,6 +187,9 @@ func checkC03(c *Ctx, w *World) {
 	//    replacement: the take-over rules of C07 (the replacement is unregistered, the slot points at it, the flag is cleared).
 	importPremises(c, w, "C17", checkC17, []string{"C17.defaults"}, "C03.min-config")
 	importPremises(c, w, "C07", checkC07, []string{"C07.swap"}, "C03.swap-once")
+	//  * "a new channel is added only when every READY channel is at or above the watermark" compares the watermark with the
+	//    stream counts: they must be exact (one increment per placement, one decrement per completion, surviving a swap)
+	importPremises(c, w, "C02", checkC02, []string{"C02.complete", "C02.pick", "C02.place", "C02.survive", "C02.callers"}, "C03.counts")
 
 	// ---- C03.remove
 	rm := pl.ifaceCallSites("balancer.ClientConn.RemoveSubConn")
